@@ -76,6 +76,12 @@ func c03TamperScenarios() []c03Scn {
 			}
 		}
 	}
+	if vIsThorough() {
+		for _, s := range append([]c03Scn(nil), out...) {
+			s.MTU = 200
+			out = append(out, s)
+		}
+	}
 	for i := range out {
 		s := &out[i]
 		s.ID = c03ID(*s)
